@@ -21,7 +21,7 @@ ID = 'C01'
 LEVEL = 'exploration'
 
 PSEUDOS = ('root', 'empty', 'first-child', 'last-child', 'only-child', 'first-of-type', 'last-of-type', 'only-of-type')
-T_VALUES = (None, '', 'v', 'V', 'v w', 'w-v', 'v-', 'v\n', ' v', 'xvx', 'v.x', '.')
+T_VALUES = (None, '', 'v', 'V', 'v w', 'w-v', 'v-', 'v\n', ' v', 'xvx', 'v.x', '.', 'x\nv', 'v\nx', 'x\rv-w\n\nv')
 SEL_VALUES_Q = ('', 'v', 'V', 'w', 'v w', '-', 'v-', 'x', '.')
 OPS = ('=', '~=', '|=', '^=', '$=', '*=', '!=')
 _CACHE = {}
